@@ -16,6 +16,7 @@ import (
 func init() { register("C05", checkC05) }
 
 func checkC05(P *core.Program, R *core.Report) {
+	defer CheckCoinSetValidated(P, R, "C05-coin-set")
 	defer checkKeeperArgsNotNil(P, R)
 	defer checkShareValueFormulas(P, R)
 	defer checkMaximalRatioJoin(P, R)
@@ -149,7 +150,41 @@ func checkC05(P *core.Program, R *core.Report) {
 			R.Add("C05-set-to", "x/amm/types.Pool.processExitPool", "UpdatePoolAssetBalances(liquidity − exiting)", P.Pos(P.InstrPos(c)), shape && complete,
 				"the set-to idiom equals −exitingCoins only if the new balances cover every pool asset (len(balances) == len(PoolAssets))")
 		}
-		if n != 1 {
+		if n == 0 {
+			// the book is not set to (liquidity − exiting) as a whole: then it is lowered coin by
+			// coin — a read-modify-write `asset.Token.Amount = asset.Token.Amount.Sub(coin.Amount)`
+			// with coin an element of exitingCoins (the completeness question of the set-to idiom
+			// does not arise: no denom is dropped by a Coins subtraction)
+			perCoin := false
+			for _, b := range fn.Blocks {
+				for _, in := range b.Instrs {
+					st, ok := in.(*ssa.Store)
+					if !ok {
+						continue
+					}
+					fa, ok := st.Addr.(*ssa.FieldAddr)
+					if !ok || core.FieldName(fa.X.Type(), fa.Field) != "Amount" {
+						continue
+					}
+					sa, _, isSub := mathCall(ff, st.Val, "Sub")
+					if !isSub || len(sa) != 2 {
+						continue
+					}
+					ld, isLd := ff.Fwd(sa[0]).(*ssa.UnOp)
+					if !isLd || !sameLocation(ff, ld.X, fa) {
+						continue
+					}
+					fromExiting := ff.AllOrigins(sa[1], nil, func(o core.Origin) bool {
+						return o.Kind == "param" && o.Val == ssa.Value(fn.Params[2]) && strings.HasSuffix(o.Path, ".Amount")
+					})
+					if fromExiting {
+						perCoin = true
+					}
+				}
+			}
+			R.Add("C05-set-to", "x/amm/types.Pool.processExitPool", "book lowered coin by coin", P.Pos(fn.Pos()), perCoin,
+				"without the set-to idiom the pool book is lowered by each exiting coin's own amount (read-modify-write of the asset's Token.Amount)")
+		} else if n != 1 {
 			R.Add("C05-set-to", "x/amm/types.Pool.processExitPool", "UpdatePoolAssetBalances", P.Pos(fn.Pos()), false, "expected exactly one call (anchor changed)")
 		}
 		// TotalShares = NewCoin(denom, total.Sub(exitingShares))
